@@ -23,9 +23,16 @@ def dec_jobs(tier, rnd):
     # structured: long zero stretches reach the 95-, 256-, 512-zero unary runs
     for L in (15, 34, 35, 66, 67, 68):
         jobs.append((MOD, 'decompress_scen', dict(n=1, L=L, buf=[None, None] + [0] * (L - 3) + [None], tag='n=1 zero-stretch L=%d' % L, deadline_s=3000)))
-    for k in (11, 13):
+    # run lengths around the 95 limit at every alignment of the limit inside a byte: the run of coefficient 0 starts at bit 8, so k zero
+    # bytes after a symbolic byte give runs 8k .. 8k+15; k = 10..13 covers 80..119
+    for k in (10, 11, 12, 13):
         L = 2 + k + 3
         jobs.append((MOD, 'decompress_scen', dict(n=2, L=L, buf=[None, None] + [0] * k + [None] * 3, tag='n=2 long run in coeff 0, k=%d' % k, deadline_s=3000)))
+    # the same for a middle coefficient (n = 3), whose start is not byte aligned (coefficient 0 takes 9..16 bits)
+    if tier == 'thorough':
+        for k in (10, 11):
+            L = 3 + k + 3
+            jobs.append((MOD, 'decompress_scen', dict(n=3, L=L, buf=[None, None, None] + [0] * k + [None] * 3, tag='n=3 long run in coeff 1, k=%d' % k, deadline_s=6000)))
     for k in (12, 32, 64):
         L = 3 + k + 1
         jobs.append((MOD, 'decompress_scen', dict(n=2, L=L, buf=[None] * 3 + [0] * k + [None], tag='n=2 long run in coeff 1, k=%d' % k, deadline_s=3000)))
@@ -215,7 +222,7 @@ def check(tier):
     rep = Report('C07', tier)
     rep.functions = ['encoding::compress (+ closures)', 'encoding::compress_coefficient', 'encoding::decompress']
     rep.bounds = ['decompress, fully symbolic buffers (n,L): quick (1,1..8) (2,2..4) (3,3..4); thorough adds (1,9..16) (2,5..6) (3,5) (4,5)',
-                  'decompress, structured buffers: n=1 L in {15,34,35,66,67,68} and n=2 with a zero stretch in either coefficient (everything else symbolic)',
+                  'decompress, structured buffers: n=1 L in {15,34,35,66,67,68}; n=2 with a zero stretch of 10..13 bytes in coefficient 0 or 12/32/64 bytes in coefficient 1; n=3 with 10/11 zero bytes in the middle coefficient (thorough only; everything else symbolic)',
                   'decompress, production sizes (thorough): n=512/L=625 and n=1024/L=1239 with a concrete reference-encoded prefix (VERIF_SEED) and a symbolic tail of 20..33 bits (+40 zero bytes)',
                   'compress: every unary structure for n=1 (all 95 in range + 4 out of range), n=2 quick 25 / thorough all 9025 structures, n=3 quick 27 / thorough 512; signs and low bits symbolic; L = ceil(bits/8)+{-1,0,1,3}']
     rep.outside = ['fully symbolic buffers longer than the above; more than 4 simultaneously symbolic coefficients; zero stretches at other positions',
